@@ -4,7 +4,9 @@ use super::{
 };
 use crate::ScopeRef;
 use crate::css::{self, CssString, ValueToMapError};
-use crate::input::{Context, Loader, Parsed, SourceKind, SourcePos};
+use crate::input::{
+    Context, Loader, Parsed, SourceFile, SourceKind, SourcePos,
+};
 use crate::ordermap::OrderMap;
 
 /// A declared mixin
@@ -41,6 +43,7 @@ impl MixinDecl {
                         call_args.evaluate(scope)?.args,
                     )?,
                     body: Parsed::Scss(decl.body.body),
+                    loaded: None,
                 })
             }
             Self::NoBody => Ok(Mixin::empty(scope)),
@@ -85,10 +88,11 @@ impl MixinDecl {
                         scope.define(key.into(), value)?;
                     }
                 }
-                file_context.unlock_loading(&source);
+                // The source stays locked until the body is evaluated.
                 Ok(Mixin {
                     scope,
                     body: source.parse()?,
+                    loaded: Some(source),
                 })
             }
         }
@@ -105,6 +109,10 @@ pub struct Mixin {
     pub scope: ScopeRef,
     /// The body of this mixin.
     pub body: Parsed,
+    /// The file a `load-css` body is loaded from.
+    ///
+    /// It is locked and should be unlocked when the body is handled.
+    pub(crate) loaded: Option<SourceFile>,
 }
 
 impl Mixin {
@@ -112,6 +120,7 @@ impl Mixin {
         Self {
             scope,
             body: Parsed::Css(vec![]),
+            loaded: None,
         }
     }
     pub(crate) fn define_content(
